@@ -216,6 +216,31 @@ Theorem C17_split_floodfill_meets_definition_shallow : forall (d : nat) (indirec
                 SplitOK nb (flatc dmax cells) (map (flatc dmax) comps).
 Proof. exact split_meets_definition_shallow. Qed.
 
+(** ---------- hole filling as written (fill_holes / fill_holes_smaller_than, Model/FloodFill.v ff_fill, ff_fill_smaller) ----------
+    adding ANY selection of the parts of the complement to the MOC only adds whole connected components of the
+    complement ... *)
+Theorem C17_fill_from_split : forall (nb : N -> list N) (M Cmp : list N) (parts sel : list (list N)),
+  SplitOK nb Cmp parts -> (forall p, In p sel -> In p parts) ->
+  (forall c n, In c Cmp -> In n (nb c) -> In n M \/ In n Cmp) ->
+  FillOK nb M (M ++ concat sel).
+Proof. exact fill_from_split. Qed.
+
+(** ... hence the modelled fill_holes(n) and fill_holes_smaller_than(f) meet the property's definition on every
+    MOC of depth <= 3, for every index width, every n and every f *)
+Theorem C17_fill_meets_definition_shallow : forall (d : nat) maxd (M : list N) cmp_cells,
+  (d <= 3)%nat -> maxd <= 64 -> N.of_nat d <= maxd ->
+  let nb := nb8 d in
+  let dmax := N.of_nat d in
+  Forall (fun c => fst c <= dmax /\ snd c < 12 * 4 ^ fst c) cmp_cells ->
+  StronglySorted N.lt (map (zun maxd) cmp_cells) ->
+  ForallOrdPairs (disj maxd) cmp_cells ->
+  (forall x, x < 12 * 4 ^ dmax -> In x M \/ In x (flatc dmax cmp_cells)) ->
+  (forall except, exists sel, ff_fill maxd dmax (ext_of nb dmax) cmp_cells except = Some sel /\
+                              FillOK nb M (M ++ concat (map (flatc dmax) sel))) /\
+  (forall num den, exists sel, ff_fill_smaller maxd dmax (ext_of nb dmax) cmp_cells num den = Some sel /\
+                               FillOK nb M (M ++ concat (map (flatc dmax) sel))).
+Proof. exact fill_meets_definition_shallow. Qed.
+
 Example C17_nonvacuous_floodfill :
   ff_split 29 1 (ext_of (nb4 1) 1) [(0, 0); (0, 2); (1, 20)] = Some [[(0, 0)]; [(0, 2)]; [(1, 20)]] /\
   ff_split 29 1 (ext_of (nb8 1) 1) [(0, 0); (0, 2); (1, 20)] = Some [[(0, 0); (0, 2)]; [(1, 20)]] /\
@@ -246,3 +271,5 @@ Print Assumptions C17_floodfill_search_general.
 Print Assumptions C17_floodfill_search_nothing.
 Print Assumptions C17_split_floodfill_meets_definition.
 Print Assumptions C17_split_floodfill_meets_definition_shallow.
+Print Assumptions C17_fill_from_split.
+Print Assumptions C17_fill_meets_definition_shallow.
